@@ -368,7 +368,14 @@ int fiber_wait_for_event(int fd, uint32_t events) {
 
   // if the fd is closed while we're polling, this_fiber->scratch will be
   // non-NULL (see fiber_fd_closed)
-  return this_fiber->scratch ? FIBER_ERROR : FIBER_SUCCESS;
+  if (this_fiber->scratch) {
+    // the callers return -1 to the application: report what a call on a closed
+    // descriptor reports instead of a stale errno (typically the EAGAIN of the
+    // attempt that made us wait)
+    errno = EBADF;
+    return FIBER_ERROR;
+  }
+  return FIBER_SUCCESS;
 }
 
 int fiber_sleep(uint32_t seconds, uint32_t useconds) {
